@@ -3,7 +3,7 @@
 set -e
 cd "$(dirname "$0")"
 export GOFLAGS=-mod=mod GOPROXY=off GOSUMDB=off GOTOOLCHAIN=local
-mkdir -p .build evidence replays
+mkdir -p .build evidence replays lean/ColumnVerif/Generated
 if [ -d extract ]; then
   (cd extract && go build -o ../.build/extract . && ../.build/extract /repo > ../lean/ColumnVerif/Generated/Skeleton.lean.tmp \
      && mv ../lean/ColumnVerif/Generated/Skeleton.lean.tmp ../lean/ColumnVerif/Generated/Skeleton.lean)
